@@ -85,7 +85,9 @@ CLAIMS.update({
         'place (C03_written_where_cached; false with >= instead of >: C03_writer_test_is_decisive); restarting the recomputation at an index is '
         'sound; after ANY sequence of insertions/removals a directory length is a whole number of blocks covering its records '
         '(C03_dir_length_inv, via insert_le1 / remove_le0); path-table extents = 2*ceil(size/4096) after any add/remove sequence and the removal '
-        'path never raises (C03_ptr_extents_inv, on the TRANSLATED add_to_ptr_size/remove_from_ptr_size/ceiling_div).  Tie: Pack.v vs the real '
+        'path never raises (C03_ptr_extents_inv, on the TRANSLATED add_to_ptr_size/remove_from_ptr_size/ceiling_div).  The packing model IS the source: '
+        '_recalculate_extents_and_offsets is TRANSLATED on every run (object lists read/written attribute-wise) and C03_recalculate_is_the_model proves the '
+        'generated function equal to Pack.nf/nf_pos from any restart index with any stale cache.  Tie: translator validation run + Pack.v vs the real '
         'method on an exhaustive small-block grid + insert/remove edits + positions decoded from real images (judged in Coq).  The property itself: '
         'every generated image (random histories + boundary recipes: block filled exactly, path table crossing 4 KiB with duplicate PVDs, ...) is '
         'decoded by an independent reader checking every listed ECMA-119 rule and compared with the API tree and contents of both the writing and a reopened object.'),
@@ -99,12 +101,16 @@ CLAIMS.update({
         'objects disjointly and inside [start, start+sum) whatever the traversal order (C04_bump_disjoint/_inside); the sizes suffice: translated '
         'ceiling_div covers the bytes, a directory\'s blocks cover its records, the path-table reservation covers the table; the Rock Ridge '
         'continuation allocator (model of RockRidgeContinuationBlock.add_entry/remove_entry/track_entry and add_rr_ce_entry) keeps entries pairwise '
-        'disjoint and inside the block for EVERY add/remove history (C04_ce_blocks_inv) and the off-by-one gap variant is refuted.  Tie: allocator and '
-        'packing models vs the real objects on exhaustive small-block sequences.  The property itself on every generated image: objects decoded by '
+        'disjoint and inside the block for EVERY add/remove history (C04_ce_blocks_inv) and the off-by-one gap variant is refuted.  The two ways of '
+        'computing the allocation agree: Model/Account.v is a state machine of the plain ISO9660 core (directory tree, file lengths, path table, '
+        'space_size; add_fp/add_directory/rm_file/rm_directory with exactly the per-edit byte deltas of the source) and C04_declared_size_is_exact proves '
+        'space = end of the from-scratch layout for EVERY history, objects disjoint and inside, refused edits change nothing.  Tie: allocator and '
+        'packing models vs the real objects on exhaustive small-block sequences; Account.run_probe/flags/ends vs the library after EVERY operation of random histories.  The property itself on every generated image: objects decoded by '
         'the independent reader pairwise disjoint and inside the declared size, image length exact, write log of the mastering run free of double '
         'writes (except the boot-info patch), data extents shared iff linked.'),
-  note=('The incremental space_size accounting of every edit is NOT modelled in Coq; under-/over-declaration is decided on the sampled images '
-        '(length, bounds, overlaps, failed writes).  Over-declaration (a continuation block that is no longer used keeps its sector) is not a violation. '
+  note=('The accounting of Joliet / Rock Ridge / UDF / hard-link / El Torito edits is NOT modelled in Coq (Account.v: one name per content, files of one '
+        'extent, no Rock Ridge); for them under-/over-declaration is decided on the sampled images (length, bounds, overlaps, failed writes, and the '
+        'trailing-slack rule: the declared size ends where the last object ends). '
         'Trusted: Coq kernel, translator, hand models tied by leaf runs, reader segment map, recording sink.'),
   technique='Coq proofs (bump allocation, CE allocator invariant, translated size functions) + reader/write-log oracle on generated images',
   design='§8.4'),
@@ -155,7 +161,7 @@ CLAIMS.update({
         'models vs the real methods on every run (targets around every record/component boundary).  The property itself on generated Rock Ridge images (1.09/1.10/1.12 x XA, long '
         'names, CE gaps of exactly the needed size +-1, trees deeper than 8): an independent SUSP/RRIP reader recovers names, types, PX mode types, link counts, targets, the logical '
         'tree; entry lengths, CE/CL/PL pointers.'),
-  note=('Relocation (CL/PL/RE), link-count maintenance and _assign_entries placement are decided on sampled images by the reader, not by theorems. Link counts are not compared on images with a relocated directory.'),
+  note=('Added models: Nlink.v (directory link counts: 2 + #subdirs on the record, its dot and the children\'s dotdot after EVERY add/rm_directory history incl. refused edits, C08_nlink; depth <= 7, no relocation) and RREntries.v/RRWalk.v (every System Use entry codec, the walker and the recorder: entry round trips, self-describing lengths, C08_area_walk for any entry list; the two known symlink findings as _refuted theorems); tied by nlinkleaf.py (PX counts of the record objects) and rrleaf.py (System Use areas of generated images).  Relocation (CL/PL/RE), link counts under relocation and _assign_entries placement are decided on sampled images by the reader, not by theorems. Link counts are not compared on images with a relocated directory.'),
   technique='Coq round-trip proofs for NM/SL splitting and CE allocator invariant + leaf runs + independent SUSP/RRIP reader on generated images',
   design='§8.8'),
  'C09': dict(category='proof',
@@ -172,7 +178,7 @@ CLAIMS.update({
         'Everything else is decided on generated UDF images (fresh and reopened-then-edited; identifier areas ending exactly on a sector boundary; Latin-1/UCS-2 names; non-Latin-1 symlink components; '
         'cross-namespace links; empty files) by an independent ECMA-167 reader that starts from the recognition sequence and the anchors, verifies every tag it passes, partition bounds and information '
         'lengths, and must recover exactly the tree, names, targets and bytes.'),
-  note='partial: partition/anchor/integrity accounting and the ~40 descriptor classes are NOT modelled in Coq; they are checked by the reader on sampled images only.',
+  note='partial: Model/Udf.v covers tag, short/long AD, ICB tag, FID and File Entry (+ splitting into allocation descriptors): recorded descriptors verify for an independent checker, parse.record = id, extents sum to the length and chain; tied by udfleaf.py incl. descriptors cut out of written images.  Partition/anchor/integrity accounting and the volume descriptor sequence classes are NOT modelled in Coq; they are checked by the reader on sampled images only.',
   technique='Coq proofs over translated CRC/checksum/length functions + independent ECMA-167 reader on generated images',
   design='§8.10'),
  'C11': dict(category='proof',
@@ -180,7 +186,7 @@ CLAIMS.update({
         'rm_eltorito removes exactly the catalog names and boot references.  Translation validated against the Python method on every run.  The property itself on generated bootable images (1-6 entries, '
         'platform ids, load sizes, boot info tables, multi-sector boot files followed by data, edits after add_eltorito, reopen in the middle): boot record at 17, validation entry, every entry of the header '
         'chain vs the boot file\'s sector and bytes, boot-info-table fields as stored and as read back, catalog readable under all its names; add+rm_eltorito gives byte-identically the image without El Torito.'),
-  note='Pointer assignment and catalog encoding are not modelled in Coq (sampled). floppy/hdemul media are not generated.',
+  note='Model/Eltorito.v (entries, section headers, catalog record/parse state machine, add_section, the reader loop, boot info table): C11_catalog_extent_roundtrip for every buildable catalog incl. 31 sections and non-bootable entries, entry totality, checksum over the file\'s own bytes; four _refuted witnesses of the first model were repaired in /repo; tied by etleaf.py.  Pointer assignment (load RBA = boot file sector) is not modelled in Coq (sampled). floppy/hdemul media are generated at leaf level only.',
   technique='Coq proof over translated validation checksum + independent reader and byte comparison on generated bootable images',
   design='§8.11'),
  'C12': dict(category='proof',
@@ -188,7 +194,7 @@ CLAIMS.update({
         'no longer covers the image (explicit theorem + witness: known finding); table-driven crc32 equals the bitwise reflected CRC-32 for ALL byte strings.  Leaf: IsoHybrid.record decoded independently over '
         '8 geometries x cylinder counts around 1/256/512/768/1024.  Image level: MBR signature, exactly one active partition covering the padded image, boot address = 4 x boot sector, GPT CRCs and mirror, padding, '
         'no overlap of the backup GPT with the volume, rest of the image equal to the non-hybrid image; also write - add files - write schedules.'),
-  note='GPT/APM encoders are not modelled in Coq (reader on sampled images).',
+  note='Model/Hybrid.v (MBR, CHS, GPT header/entries/placement, APM): MBR layout and round trip, CHS decode, GPT header verifies, and the three known findings as _refuted theorems (clamped partition size, GPT array CRC over used entries only, backup GPT over the volume tail); tied by hybridleaf.py.  Whole-image GPT/APM contents: reader on sampled images.',
   technique='Coq proofs over translated _calc_cc and crc32 + MBR leaf grid + independent reader on generated hybrid images',
   design='§8.12'),
 })
